@@ -311,7 +311,7 @@ def plan(tier):
     for n in ([1, 2] if q else [1, 2]):
         for qq in range(n):
             for model in ("depolarizing", "pauliX", "pauliY", "pauliZ", "pauliI", "loss"):
-                for start in (("pure",) if model != "depolarizing" else ("pure", "mixed", "lossy")):
+                for start in (("pure", "mixed") if model != "depolarizing" else ("pure", "mixed", "lossy")):
                     jobs.append((StabNoise(n=n, q=qq, model=model, start=start), {}))
     for backend in ("s", "dm"):
         for gate in ("H", "CNOT"):
